@@ -46,8 +46,20 @@ def index_guard(text, idxnode, par, aliases=(), _depth=0):
     X = text(idxnode["index"])
     ex = re.escape(X)
     eb = "(?:" + "|".join(re.escape(b) for b in (base,) + tuple(aliases)) + ")"
-    up = re.compile(ex + r"(\+\d+)?<" + eb + r"\.len\(\)")          # X < len       (holds in the guarded region)
-    lo = re.compile(ex + r"(\+\d+)?>=" + eb + r"\.len\(\)")         # X >= len      (its negation holds after an || / early exit)
+    # the length may have been named once: `let len = bytes.len();` (an immutable local of an enclosing block, bound before the use)
+    lens = [eb + r"\.len\(\)"]
+    for a in par.ancestors(idxnode):
+        if a["k"] != "Block":
+            continue
+        for st in a["stmts"]:
+            if (st["sp"][0], st["sp"][1]) >= (idxnode["sp"][0], idxnode["sp"][1]):
+                break
+            if st["k"] == "Local" and st["pat"]["k"] == "PIdent" and not st["pat"].get("mut") and st.get("init") is not None \
+                    and re.fullmatch(eb + r"\.len\(\)", _unparen(text(st["init"]))):
+                lens.append(re.escape(st["pat"]["name"]))
+    el = "(?:" + "|".join(lens) + ")"
+    up = re.compile(ex + r"(\+\d+)?<" + el)          # X < len       (holds in the guarded region)
+    lo = re.compile(ex + r"(\+\d+)?>=" + el)         # X >= len      (its negation holds after an || / early exit)
     for a in par.ancestors(idxnode):
         if a["k"] == "Binary" and a["op"] in ("||", "&&"):
             for o in chain_ops(a, a["op"]):
